@@ -70,8 +70,11 @@ TABLE = {
     'randomizer_bin_und': [((BU5, 0.5), {}), ((BU5, 1.0), {})],
     'randmio_und_signed': [((SU4, 1), {})],
     'randmio_dir_signed': [((SD4, 1), {})],
-    'null_model_und_sign': [((SU4,), {'bin_swaps': 1, 'wei_freq': 0.5}), ((SU4,), {'bin_swaps': 2, 'wei_freq': 1})],
-    'null_model_dir_sign': [((SD4,), {'bin_swaps': 1, 'wei_freq': 0.5})],
+    'null_model_und_sign': [((SU4,), {'bin_swaps': 1, 'wei_freq': 0.5}), ((SU4,), {'bin_swaps': 2, 'wei_freq': 1}),
+                            ((SU4,), {'bin_swaps': 5, 'wei_freq': 1})],
+    # the nested rewiring and the weight dealing must both consume the stream and both show in the result
+    'null_model_dir_sign': [((SD4,), {'bin_swaps': 1, 'wei_freq': 0.5}), ((SD4,), {'bin_swaps': 2, 'wei_freq': 1}),
+                            ((SD4,), {'bin_swaps': 5, 'wei_freq': 1})],
     'makeevenCIJ': [((8, 20, 2), {})],
     'makefractalCIJ': [((3, 2, 2), {})],
     'makerandCIJ_dir': [((5, 7), {})],
@@ -79,7 +82,7 @@ TABLE = {
     'makerandCIJdegreesfixed': [((np.array([1, 2, 1, 1]), np.array([2, 1, 1, 1])), {}),
                                 ((np.array([2, 2, 1, 1]), np.array([1, 1, 2, 2])), {})],
     'makeringlatticeCIJ': [((6, 15), {})],
-    'maketoeplitzCIJ': [((3, 2, 1.0), {})],
+    'maketoeplitzCIJ': [((3, 6, 1.0), {})],      # K = all cells: the rejection loop ends at once for every stream
     'community_louvain': [((BU5,), {}), ((WD5,), {'gamma': 1.1}), ((WU5,), {'ci': np.array([3, 3, 7, 7, 9])}),
                           ((BU5,), {'B': WU5 - WU5.mean()})],
     'modularity_louvain_und': [((BU5,), {}), ((WU5,), {'hierarchy': True})],
